@@ -3,6 +3,7 @@ CONSTANTS
   Procs <- P4
   Types <- SharedTypes
   ChildSeq <- SharedChild
+  Invalid <- NoneInvalid
   Pkg <- SharedPkg
   CallChoices <- NoCalls
   Guard = "mutex"
